@@ -78,12 +78,29 @@ def run(tier):
     # ---------------- (a) compiler-produced modules
     srcs = corpus.hand_programs() + sorted(glob.glob(os.path.join(common.VERIF, "vf/corpus_vm/*.nano")))
     srcs.append(gen_many(os.path.join(work, "g_many.nano")))
+    # batches of enumerated programs (every layer of the shared enumerator) as further compiler-produced modules
+    from .. import langrun
+    from . import langcommon
+    for layer in ("layer_S", "layer_F", "layer_D", "layer_A", "layer_E", "op_matrix", "effect_order"):
+        cases = langcommon.all_cases("quick", [layer])
+        nb = 2 if tier == "quick" else 12
+        for k in range(nb):
+            part = cases[k * 40:(k + 1) * 40] if layer == "layer_A" else cases[k * 100:(k + 1) * 100]
+            if not part:
+                break
+            pth = os.path.join(work, "e_%s_%d.nano" % (layer, k))
+            with open(pth, "w") as f:
+                f.write(langrun.source_of(part))
+            srcs.append(pth)
     jobs = [(plain.root, plain.exe("nano_vm"), plain.exe("nano_virt"), s, work) for s in srcs]
     results = common.pmap(_observe, jobs)
     nvms = []
     for r in results:
         name = os.path.basename(r["src"])
         if r["emit"][0] != 0 or "file" not in r:
+            if name.startswith("e_layer") or name.startswith("e_op") or name.startswith("e_eff"):
+                rep.count("enumerator_batches_refused_by_front_end")     # a batch holding a case of C02's known finding
+                continue
             raise common.HarnessError("corpus program %s does not compile: %s" % (name, r["emit"][2][-500:]))
         ref = (r["run"][0], r["run"][1])
         obs = {"--run": ref, "nano_vm file": (r["file"][0], r["file"][1])}
